@@ -823,6 +823,33 @@ def r09_11(chk, P, rule='R09.11'):
     return n
 
 
+def r09_12(chk, P, E):
+    chk.rule('R09.12', 'the open-time link scan leaves the handle on the link it was on: no function reachable from '
+             '_bisect_forward_serialno stores vf->current_serialno or vf->current_link (K3 write sets over the call graph).  The '
+             'scan only probes the headers of the later links; _open_seekable2 then positions the handle with ov_raw_seek on the '
+             'first link and relies on current_serialno still naming it -- a probe that records "its" serial number makes the '
+             'read path drop or mis-attribute the first link\'s pages')
+    root = P.key(P.need('_bisect_forward_serialno'))
+    par = P.reachable([root])
+    n = 0
+    for k in sorted(par):
+        F = P.fn.get(k)
+        if F is None or not F.file.endswith('vorbisfile.c'):
+            continue
+        S = E.st.get(k)
+        bad = []
+        if S is not None:
+            for (o, r, f, e, d) in S.stores:
+                if d and r == VF and f in ('current_serialno', 'current_link'):
+                    bad.append((e, f))
+        n += 1
+        chk.ob('R09.12', k, 'scan-does-not-reposition-the-handle', not bad, F.where(bad[0][0]) if bad else F.where(),
+               'stores neither current_serialno nor current_link' if not bad else
+               f'stores vf->{bad[0][1]} (`{F.s(bad[0][0])[:60]}`) although it runs as part of the link scan',
+               path=P.path_to(par, k) if bad else None)
+    return n
+
+
 def run(chk, P):
     r09_7(chk, P)
     chk.floor('R09.7', 4)
@@ -843,6 +870,8 @@ def run(chk, P):
     chk.floor('R09.8', 3)
     r09_9(chk, P, E)
     chk.floor('R09.9', 2)
+    r09_12(chk, P, E)
+    chk.floor('R09.12', 5)
     r09_10(chk, P)
     chk.floor('R09.10', 1)
     r09_11(chk, P)
